@@ -13,6 +13,8 @@ from . import simrun as R
 from . import sim_check as SC
 from . import simple_lib as L
 
+CLAIM_MORE = 'ALSO (coq/Props/C03x.v, exec level): for EVERY draw script a run is set-up + steps + stop rule with its exact call trace, never a Python-level error in plain mode or with covering return_statuses, fuel never exhausted by a script no longer than the fuel, every event one enabled transition of the specification, weights and step law at every loop head of every run.'
+
 CLAIM = dict(
     text="Machine-checked theorems (coq/Props/C03.v) over an executable model of Gillespie_simple_contagion written as the code is "
          "(one _ListDict_ and one get_weight dictionary per spec edge in the cascade's order, set-up, selection cascade + choose_random, "
